@@ -145,16 +145,21 @@ CHECKS['C07'] = dict(
     ref='DESIGN.md section 5, C07')
 
 CHECKS['C02'] = dict(
-    category='exploration',
-    text='The property quantifies over a finite corpus, which every run enumerates completely on the implementation: '
-         'all 652 examples of the vendored CommonMark 0.30 spec.json are rendered with HtmlRenderer('
-         'html_escape_double_quotes=True) and compared with the expected HTML under a re-implementation of the '
-         'specification driver\'s normalisation. This decides C02 for the tree at hand. The Lean corpus theorem over the '
-         'parser model (kernel evaluation of all examples) is the planned upgrade once the model covers the whole inline '
-         'grammar; until then the level is exhaustive enumeration, not proof.',
-    note='Trusted: specnorm.py (normaliser), the vendored corpus. Interim level, see DESIGN.md C02.',
-    technique='exhaustive enumeration of the finite quantifier on the implementation (Lean corpus theorem pending the full parser model)',
-    ref='DESIGN.md section 5, C02')
+    text='The property quantifies over a finite corpus, so it is decided for the model by evaluation in the Lean '
+         'kernel: theorem C02_corpus says that the model of Document(markdown) + HtmlRenderer('
+         'html_escape_double_quotes=True).render, under the token lists regenerated from /repo, returns the '
+         'expected HTML byte for byte on every one of the 652 examples of the vendored CommonMark 0.30 spec.json '
+         '(decide +kernel over 32 chunk files, no axioms; byte equality implies equality under the specification\'s '
+         'normalisation), and C02_corpus_complete that the table holds exactly examples 1..652. The model is tied to '
+         'the code on the same 652 inputs exhaustively (the function the theorem evaluates against the real renderer; '
+         'the whole token tree with attributes and line numbers under three HTML option sets) and on mutations of '
+         'them; every run also enumerates the corpus on the implementation under the specification driver\'s '
+         'normalisation, which is what yields the failing example when something breaks.',
+    note='Trusted: Lean kernel reduction (no axioms); harness/extract.py turning spec.json into Lean data (checked '
+         'back through the driver against the JSON each run); specnorm.py (normaliser, used only when output is not '
+         'byte-identical); the vendored corpus; doc correspondence harness.',
+    technique='Lean 4 proof by kernel evaluation (decide +kernel) of the full parse+render model over the finite corpus + exhaustive correspondence on the corpus',
+    ref='DESIGN.md section 5, C02 and section 12')
 
 CHECKS['C01'] = dict(
     category='exploration',
